@@ -15,6 +15,8 @@ pub mod c10;
 pub mod c12;
 pub mod c13;
 pub mod c14;
+pub mod c15;
+pub mod c16;
 pub mod c17;
 pub mod util;
 
@@ -46,6 +48,8 @@ pub fn scenario(name: &str) -> Option<Scenario> {
         "c12_iso_sys" => c12::c12_iso_sys,
         "c13_chain" => c13::c13_chain,
         "c14_shared_node" => c14::c14_shared_node,
+        "c15_managers" => c15::c15_managers,
+        "c16_breaker_race" => c16::c16_breaker_race,
         "c17_geometry" => c17::c17_geometry,
         "c17_threads" => c17::c17_threads,
         _ => return None,
